@@ -190,17 +190,19 @@ fn seen_of(p: &codec::Publish, route: u8) -> Seen {
     }
 }
 
-async fn publish_handler(app: Rc<App>, p: v3::Publish, route: u8) -> Result<(), AppErr> {
+async fn publish_handler(app: Rc<App>, mut p: v3::Publish, route: u8) -> Result<(), AppErr> {
     let seq = app.next_pub_seq();
     let size = u64::from(p.packet_size());
     app.enter_pub(size);
     let mut guard = DropGuard { app: app.clone(), seq, publish: true, size, done: false };
     app.push(Ev::PubEnter { seq, seen: seen_of(p.packet(), route) });
+    app.entered(seq);
     let plan = app.pub_plan(seq);
     match plan.read {
         ReadPlan::Eager => read_payload(&app, seq, || p.read(), None).await,
         ReadPlan::ReadK(k) => read_payload(&app, seq, || p.read(), Some(k)).await,
         ReadPlan::EagerAll => read_whole(&app, seq, p.read_all().await),
+        ReadPlan::Detached => super::v5::read_detached(app.clone(), seq, p.take_payload()),
         _ => {}
     }
     app.wait(G_PUB, seq).await;
